@@ -217,6 +217,109 @@ def replay_lex(run, replay, gv, gm, mode="tokens"):
                 run.violation(dict(obj, replayed=True))
 
 
+def long_literal_family(run, gv, gm, kind, cands, label):
+    """structured longer literal candidates (beyond the exhaustive sweep): crate token line == model token line, and
+    the extracted spec oracle (proved equivalent to the spec relation) judges the crate's answer"""
+    cands = sorted(set(cands))
+    il = vlib.run_records(gv, "tokens", cands)
+    rc, out, err = vlib.sh([gm, "lit", kind], input=vlib.frame(cands), timeout=1200)
+    if rc != 0:
+        raise MachineryFault("model lit mode died: " + err[-300:])
+    ml = out.split("\n")
+    if ml and ml[-1] == "":
+        ml.pop()
+    if len(ml) != len(cands):
+        raise MachineryFault("model lit mode: %d answers for %d candidates" % (len(ml), len(cands)))
+    bad = 0
+    diff = []
+    pos = 0
+    for s_, a, mb in zip(cands, il, ml):
+        b, _, verdict = mb.rpartition("\t")
+        single = re.match(r"^0:([NFMRS])(\S*) \d+:O; \| EOF", a)
+        is_lit = bool(single) and pfam.unesc(single.group(2)) == s_
+        spec = int(verdict)
+        if spec:
+            pos += 1
+        if bool(spec) != is_lit or (spec and single.group(1) != chr(spec)):
+            bad += 1
+            if bad <= 3:
+                run.violation({"kind": "impl-vs-spec", "family": label, "input": s_, "impl": a,
+                               "oracle": "spec says %s, the crate scans: %s" % (("a %s literal" % chr(spec)) if spec else "not one literal", a[:120])})
+        elif pfam.proj_full(a).split(" | ")[0:2] != b.split(" | ")[0:2]:
+            diff.append({"input": s_, "impl": a, "model": b})
+    run.cov["evaluations"] += len(cands)
+    run.cov["distinct_nontrivial"] += pos
+    run.extra.setdefault("families", []).append({"family": label, "inputs": len(cands), "spec_positive_inputs": pos,
+                                                  "oracle_failures": bad, "model_differs": len(diff)})
+    if diff and not bad:
+        run.violation({"kind": "correspondence-broken", "family": label, "examples": diff[:5],
+                       "what": "crate and model token lines differ on longer literals; the spec oracle accepts the crate everywhere"}, no_input=True)
+
+
+def long_string_candidates(rng, n):
+    hexd = "0123456789abcdefABCDEF"
+    specials = ["D7FF", "D800", "DBFF", "DC00", "DFFF", "E000", "FFFF", "0000", "0041", "10FFFF", "110000", "00D800", "00DFFF",
+                "00E000", "0010FFFF", "00110000", "0000D800", "0000DFFF", "0000D7FF", "0000E000", "FFFFFFFF", "7FFFFFFF"]
+
+    def esc():
+        k = rng.randrange(10)
+        if k == 0:
+            return "\\" + rng.choice("abfnrtv\\'\"")
+        if k == 1:
+            return "\\" + "".join(rng.choice("01234567") for _ in range(rng.choice([1, 2, 3, 3, 3, 4])))
+        if k == 2:
+            return "\\x" + "".join(rng.choice(hexd) for _ in range(rng.choice([1, 2, 2, 2, 3])))
+        if k == 3:
+            return "\\u" + "".join(rng.choice(hexd) for _ in range(rng.choice([3, 4, 4, 4, 5])))
+        if k == 4:
+            return "\\U" + "".join(rng.choice(hexd + "000000") for _ in range(rng.choice([7, 8, 8, 8, 9])))
+        if k == 5:
+            sp = rng.choice(specials)
+            return ("\\u" + sp[-4:]) if len(sp) <= 4 else ("\\U" + sp.rjust(8, "0")[-8:])
+        if k == 6:
+            return rng.choice(["\\377", "\\400", "\\000", "\\xff", "\\x", "\\u12", "\\U0010FFFF", "\\U00110000", "\\UFFFFFFFF"])
+        return rng.choice(["a", "Z", " ", "é", "日", "\U0001F600", "0", "`", "\t"])
+    out = []
+    for _ in range(n):
+        body = "".join(esc() for _ in range(1 + rng.randrange(4)))
+        q = rng.choice(["'", '"', '"', "`"])
+        if q == "'" and rng.random() < 0.7:
+            body = esc()
+        out.append(q + body + q)
+        if rng.random() < 0.1:
+            out.append(q + body)            # unterminated
+        if rng.random() < 0.1:
+            out.append(q + body + "\n" + q)  # raw newline inside
+    for sp in specials:
+        for q in ("'", '"'):
+            out.append(q + "\\u" + sp[-4:].rjust(4, "0") + q)
+            out.append(q + "\\U" + sp.rjust(8, "0")[-8:] + q)
+            out.append(q + "a\\U" + sp.rjust(8, "0")[-8:] + "b" + q)
+    return out
+
+
+def long_number_candidates(rng, n):
+    out = []
+    digs = {"": "0123456789", "0x": "0123456789abcdefABCDEF", "0X": "0123456789abcdefABCDEF", "0b": "01", "0B": "01", "0o": "01234567",
+            "0O": "01234567", "0": "01234567"}
+    for _ in range(n):
+        pre = rng.choice(list(digs))
+
+        def run_(k=None):
+            return "".join(rng.choice(digs[pre] + ("_" if rng.random() < 0.3 else "")) for _ in range(k or 1 + rng.randrange(6)))
+        s_ = pre + run_()
+        if rng.random() < 0.5:
+            s_ += "." + (run_() if rng.random() < 0.8 else "")
+        if rng.random() < 0.5:
+            s_ += rng.choice("eEpP") + rng.choice(["", "+", "-"]) + "".join(rng.choice("0123456789_") for _ in range(rng.randrange(4)))
+        if rng.random() < 0.3:
+            s_ += "i"
+        out.append(s_)
+    out += ["0x15e", "0xBadFace", "0XE", "0xdead_beef", "0x1e+2", "0x1p-2", "0xep1", "0x.ep1", "1e5", "0e0", "0777", "0o7_7", "0b1_0",
+            "1_000.000_1e+1_0", "0x_1F", "0_7", "09.5", "09e1", "089i", "0x1P1i", "1__0", "1_", "0x1.p1", "0x1.8p", ".5e-3i"]
+    return out
+
+
 # ---------------------------------------------------------------- C09
 
 def check_c09(run, replay):
@@ -228,6 +331,8 @@ def check_c09(run, replay):
     maxlen = 5 if run.tier == "quick" else 6
     total = total_upto(20, maxlen)
     enum_family(run, gv, gm, "num", "bare", "toks", total, "F-num:num:bare")
+    long_literal_family(run, gv, gm, "num", long_number_candidates(__import__("random").Random(seed_of(run)), budget(run, 20000, 200000)),
+                        "F-num-long")
     run.cov["rule"] = ("exhaustive: every string of length <= %d over {0 1 7 8 9 a e f p x X o O b B _ . + - i} "
                        "scanned by the crate (hook) and by the extracted model, projection tokens+EOF/ERR, block hashes compared; "
                        "the extracted spec classifier (regex transcription of the EBNF) judges every string: a string that is a "
@@ -250,6 +355,9 @@ def check_c10(run, replay):
     total = total_upto(18, maxlen)
     for w in ("squote", "dquote", "bquote"):
         enum_family(run, gv, gm, "str", w, "toks", total, "F-str:str:" + w)
+    cands = long_string_candidates(__import__("random").Random(seed_of(run)), budget(run, 20000, 200000))
+    long_literal_family(run, gv, gm, "rune", [c for c in cands if c.startswith("'")], "F-str-long:rune")
+    long_literal_family(run, gv, gm, "string", [c for c in cands if not c.startswith("'")], "F-str-long:string")
     run.cov["rule"] = ("exhaustive: every literal body of length <= %d over {a \\ ' \" ` n x u U 0 3 7 8 D F newline U+65E5 U+1F600} "
                        "inside each of the three quote kinds, scanned by the crate (hook) and by the extracted model, projection "
                        "tokens+EOF/ERR, block hashes compared; the extracted spec recogniser (regex transcription of the EBNF and its "
